@@ -98,7 +98,7 @@ def run_case(case):
     a, fs, state0, hist, cfg = build_synced_array(rng, "c05", cfg, variant, rounds=rng.randint(0, 1), want_migration=False)
     try:
         # ---- second phase: pending changes and an incomplete / disturbed sync
-        kind = ["complete", "partial", "killed", "testrun", "testrun", "copy", "replace-same-place", "replace-longer", "killed-delete", "killed-delete"][idx % 10]
+        kind = ["complete", "partial", "killed", "testrun", "testrun", "copy", "replace-same-place", "replace-longer", "killed-delete", "killed-delete", "copy-replaced"][idx % 11]
         forced_victim = None
         partner = None
         if kind in ("replace-same-place", "replace-longer"):
@@ -136,6 +136,17 @@ def run_case(case):
                 fs.remove(d, s)
         else:
             scen.mutate(fs, rng, rng.randint(2, 7), hostile=0.1, maxblocks=4)
+        copy_at = None
+        if kind == "copy-replaced" and len(a.disks) > 1:
+            # a copy (same name, size, time-stamp: its blocks inherit the hashes and wait for a sync that never reaches them)
+            # is removed again and another file takes its place, still before any sync reaches those stripes
+            fl = [x for x in fs.files() if len(fs.entries[x[0]][x[1]][1]) > 0 and not fs.links_of(x[0], x[1])]
+            if fl:
+                d, s = rng.choice(fl)
+                d2 = rng.choice([x for x in a.disks if x != d])
+                if scen._clear_path(fs, d2, s):
+                    fs.copy(d, s, d2, s)
+                    copy_at = (d2, s)
         if kind == "copy":
             fl = [x for x in fs.files() if len(fs.entries[x[0]][x[1]][1]) > 0]
             if fl and len(a.disks) > 1:
@@ -145,7 +156,9 @@ def run_case(case):
                     fs.copy(d, s, d2, s)
         args = ["-E", "-Z"]
         post = None
-        if kind in ("partial", "replace-longer") or (kind == "replace-same-place" and rng.random() < 0.5):
+        if kind == "copy-replaced":
+            args += rng.choice([["-B", "1"], ["-S", "0", "-B", "1"], ["-S", "0", "-B", "2"]])
+        elif kind in ("partial", "replace-longer") or (kind == "replace-same-place" and rng.random() < 0.5):
             args += ["-S", str(rng.randint(1, 4)), "-B", str(rng.randint(1, 6))]
         elif kind in ("killed", "killed-delete"):
             args += ["--test-kill-after-sync"]
@@ -195,6 +208,15 @@ def run_case(case):
         # ---- optional third phase: after a killed / partial sync, new files land on freed positions and are
         # stored by a partial sync that never reaches their stripes
         phase3_new = []
+        if copy_at is not None and copy_at[1] in fs.entries[copy_at[0]]:
+            n_ = len(fs.entries[copy_at[0]][copy_at[1]][1])
+            fs.remove(*copy_at)
+            nm = b"took-the-place-of-the-copy"
+            if scen._clear_path(fs, copy_at[0], nm):
+                fs.write(copy_at[0], nm, A.gen_bytes(rng, n_, "rand"))
+                forced_victim = (copy_at[0], nm)
+            r3 = a.cmd("sync", "-E", "-Z", *rng.choice([["-B", "1"], ["-S", "0", "-B", "1"], ["-S", "0", "-B", "2"]]), variant=variant)
+            hist.append(("sync3-partial-after-copy-replaced", r3.rc))
         if kind in ("killed", "partial", "complete", "killed-delete") and (kind == "killed-delete" or rng.random() < 0.6):
             for q in range(rng.randint(1, 3)):
                 d3 = rng.choice(a.disks)
